@@ -483,7 +483,9 @@ def _collect_update_commands(
             for propkey in set(propkey_to_col).intersection(
                 state.committed_state
             ):
-                value = state_dict[propkey]
+                # a column attribute that was deleted ("del obj.attr") is
+                # absent from the dict; it is written as NULL
+                value = state_dict.get(propkey, None)
                 col = propkey_to_col[propkey]
 
                 if hasattr(value, "__clause_element__") or isinstance(
